@@ -77,7 +77,7 @@ class SimComponent(Component):
         bad = params.get("bad", 0.05) if r < 0.3 else 0.0
         pool = caps if rng.random() < 0.8 or not allcaps else allcaps
         case["prog"] = [[list(p[0]), p[1], p[2]] for p in
-                        gen.rand_prog(rng, pool, nmax=params.get("plen", 8), bad=bad,
+                        gen.rand_prog(rng, pool, nmax=params.get("plen", 8), bad=bad, nhuge=300 if params.get("deep") else 0,
                                       selfdep=params.get("selfdep", 0.3))]
         return case
 
@@ -233,7 +233,18 @@ class IcaseComponent(Component):
         alph = params.get("alphabet") or "".join(chr(c) for c in range(32, 127))
         if not params.get("alphabet") and rng.random() < 0.3:
             alph = "".join(chr(c) for c in range(32, 127)) + 3 * "".join(chr(c) for c in range(160, 256))
-        n = gen.big(rng, params.get("maxlen", 8), 300, 0.02, lo=params.get("maxlen", 8))
+        n = gen.big(rng, params.get("maxlen", 8), 1200, 0.02, lo=params.get("maxlen", 8))
+        if not params.get("alphabet") and rng.random() < 0.08:
+            # BEYOND the modelled (Latin-1) domain: characters whose lower/upper forms change length or leave the
+            # block.  No theorem speaks about them; the implementation is compared with the property's own
+            # wording evaluated by Python (str.lower), as a search for failing inputs only.
+            sp = "\u0130\u0131\u017f\u212a\u03a3\u03c3\u03c2\u00df\u01c5\u0307\ufb01iI\u0049k"
+            a = "".join(rng.choice(sp) for _ in range(rng.randint(0, 4)))
+            r = rng.random()
+            b = a.lower() if r < 0.3 else (a.upper() if r < 0.5 else
+                                           ("".join(rng.choice(sp) for _ in range(rng.randint(0, 4))) if r < 0.8
+                                            else a.lower()[rng.randint(0, 1):]))
+            return {"a": a, "b": b, "beyond": True}
         a = "".join(rng.choice(alph) for _ in range(rng.randint(0, n)))
         r = rng.random()
         if r < 0.3:
@@ -248,9 +259,20 @@ class IcaseComponent(Component):
     def run(self, case):
         import implrun
         impl = implrun.run_icase(case["a"], case["b"])
+        if case.get("beyond"):
+            return ["", ""], impl                      # the model is not consulted
         return [case["a"], case["b"]], impl
 
     def judge(self, case, impl, res):
+        if case.get("beyond"):
+            a, b = case["a"], case["b"]
+            la, lb = a.lower(), b.lower()
+            want = [la == lb, la < lb, lb in la, a]
+            got = [bool(impl[0]), bool(impl[1]), bool(impl[3]), impl[4]]
+            ok = want == got and ((not impl[0]) or bool(impl[2]))
+            return std_report(case, True, want, got, {"C18": [ok, "beyond Latin-1: equality/order/containment/str as the "
+                                                              "property words them (lower-cased texts); equal keys hash equally"]},
+                              tags=["beyond-latin1"], nontrivial=a != b)
         m = jsonable(res["model"][0])
         i = jsonable([int(impl[0]), int(impl[1]), int(impl[2]), int(impl[3])] + list(impl[4:]))
         # hash: equal strings must hash equally (unequal ones may collide)
@@ -315,6 +337,9 @@ class RegqComponent(Component):
 
     def make(self, rng, params):
         owners = list(range(params.get("owners", 4)))
+        if "owners" not in params and rng.random() < 0.15:
+            # owner ids beyond CPython's small-int cache (equal ints are then distinct objects)
+            owners = rng.sample([255, 256, 257, 258, 300, 1000], 4)
         n = gen.big(rng, params.get("maxlen", 7), 60, 0.02)
         reqs = []
         for _ in range(n):
@@ -385,7 +410,7 @@ class ParseComponent(Component):
     name = "parse"
 
     def make(self, rng, params):
-        instrs = gen.rand_instr_list(rng, gen.big(rng, params.get("maxlines", 8), 200, 0.02))
+        instrs = gen.rand_instr_list(rng, gen.big(rng, params.get("maxlines", 8), 1200, 0.02))
         corrupt = None
         r = rng.random()
         if instrs and r < params.get("corrupt", 0.3):
@@ -446,7 +471,7 @@ class IsaComponent(Component):
     name = "isa"
 
     def make(self, rng, params):
-        caps = [gen.recase(rng, c, 0.3) for c in gen.CAPS[: rng.randint(1, 3)]]
+        caps = [gen.recase(rng, c, 0.3) for c in gen.CAPS[: gen.big(rng, 3, len(gen.CAPS), 0.04, lo=1)]]
         if rng.random() < 0.15:
             caps.append(gen.recase(rng, caps[0], 1.0))            # two spellings of one capability
         spec = gen.rand_isa(rng, caps)
@@ -549,6 +574,8 @@ class LoaderComponent(Component):
             d = gen.add_case_noise(rng, d)
         if rng.random() < 0.1:
             d = gen.near_miss_names(rng, d)
+        if rng.random() < 0.2:
+            d = gen.shuffle_keys(rng, d)
         return {"desc": d, "kind": kind}
 
     def run(self, case):
@@ -700,6 +727,24 @@ def table_to_diag(T, rows):
     return [sorted([u, sorted(es)] for u, es in r.items()) for r in d]
 
 
+class _StdoutProxy:
+    def __init__(self, real):
+        self.real = real
+        self.target = None
+
+    def write(self, text):
+        return (self.target or self.real).write(text)
+
+    def flush(self):
+        return (self.target or self.real).flush()
+
+    def __getattr__(self, name):
+        return getattr(self.real, name)
+
+
+_STDOUT_PROXY = None
+
+
 class PipelineComponent(Component):
     """processor+ISA YAML and assembly text through the command-line driver (sub-process) and through
     the library, against the model of every stage"""
@@ -720,8 +765,47 @@ class PipelineComponent(Component):
                 continue
             instrs = gen.rand_instr_list(rng, rng.randint(0, params.get("plen", 6)), mnems=[s[0] for s in spec])
             instrs = [[gen.recase(rng, rng.choice(spec)[0], 0.4), ops] for _, ops in instrs]
-            return {"desc": d, "isa": spec, "lines": gen.render_program(rng, instrs)}
+            # most cases call processor_sim.run in this process (same code path below the typer wrapper, no
+            # interpreter start-up); one in ten goes through the real command line
+            return {"desc": d, "isa": spec, "lines": gen.render_program(rng, instrs),
+                    "mode": "cli" if rng.random() < 0.1 else "inproc"}
         return None
+
+    @staticmethod
+    def _run_inproc(yp, ap):
+        import contextlib
+        import io
+        import logging
+        import implrun
+        import sys
+        # the module binds csv.writer(sys.stdout) when it is imported: import it with a forwarding stand-in for
+        # sys.stdout whose target can be switched per run (and also redirect sys.stdout itself while running,
+        # in case the writer is created later)
+        global _STDOUT_PROXY
+        if _STDOUT_PROXY is None:
+            _STDOUT_PROXY = _StdoutProxy(sys.stdout)
+            real, sys.stdout = sys.stdout, _STDOUT_PROXY
+            try:
+                implrun.M("processor_sim")
+            finally:
+                sys.stdout = real
+        ps = implrun.M("processor_sim")
+        buf = io.StringIO()
+        logging.disable(logging.CRITICAL)
+        _STDOUT_PROXY.target = buf
+        try:
+            with contextlib.redirect_stdout(buf):
+                ps.run(open(yp), open(ap))           # noqa: SIM115  (run() closes both)
+            rc = 0
+        except BaseException:  # noqa: BLE001  the command line would exit with status 1
+            rc = 1
+        finally:
+            _STDOUT_PROXY.target = None
+
+        class P:
+            returncode = rc
+            stdout = buf.getvalue()
+        return P
 
     def run(self, case):
         import implrun
@@ -741,8 +825,11 @@ class PipelineComponent(Component):
                 f.write("".join(ln if ln.endswith("\n") else ln + "\n" for ln in case["lines"]))
             env = dict(os.environ)
             env["PYTHONPATH"] = os.path.join(engine.HERE, "compat") + os.pathsep + os.path.join(implrun.REPO, "src")
-            p = subprocess.run(["/venv/bin/python", os.path.join(implrun.REPO, "src", "processor_sim.py"),
-                                "--processor", yp, ap], capture_output=True, text=True, env=env, timeout=120)
+            if case.get("mode") == "inproc":
+                p = self._run_inproc(yp, ap)
+            else:
+                p = subprocess.run(["/venv/bin/python", os.path.join(implrun.REPO, "src", "processor_sim.py"),
+                                    "--processor", yp, ap], capture_output=True, text=True, env=env, timeout=120)
         out = {"lib": lib, "rc": p.returncode, "stdout": p.stdout}
         parsed = parse_table(p.stdout) if p.returncode == 0 else None
         diag = table_to_diag(*parsed) if parsed else None
@@ -782,7 +869,7 @@ class PipelineComponent(Component):
             agree = {"table": True, "pipeline": str(m[0]) != "ok"}    # model must not complete either
             mm, ii = m[:2], lib
         ncyc = len(lib["sim"][1]) if completes else 0
-        return std_report(case, agree, mm, ii, checks, tags=[f"completes:{int(completes)}", f"rc:{impl['rc']}"],
+        return std_report(case, agree, mm, ii, checks, tags=[f"completes:{int(completes)}", f"rc:{impl['rc']}", f"mode:{case.get('mode', 'cli')}"],
                           in_domain=completes, nontrivial=completes and ncyc >= 3,
                           sample={"stdout": impl["stdout"][:400], "lines": case["lines"]})
 
